@@ -59,7 +59,8 @@ func c13() []*Ob {
 				for _, typ := range []string{"pattern.literalSearch", "pattern.wildcardSearch"} {
 					for _, fn := range c.P.Funcs {
 						for _, st := range InstrsIn(fn, FieldStore(typ, "narrowed")) {
-							if strings.HasSuffix(FuncName(fn), ").Narrow") || FreshBase(st.(*ssa.Store).Addr.(*ssa.FieldAddr).X) {
+							_, owned := c.P.OwnedBy(fn, func(n string) bool { return strings.HasSuffix(n, ").Narrow") })
+							if owned || FreshBase(st.(*ssa.Store).Addr.(*ssa.FieldAddr).X) {
 								c.Site(st.Pos(), "%s.narrowed set in %s", typ, FuncName(fn))
 							} else {
 								c.Violation("own:narrowed:"+FuncName(fn), st.Pos(), "%s sets %s.narrowed outside Narrow: the length-only / prefix-skipping shortcuts would be used on a range that was not narrowed", FuncName(fn), typ)
